@@ -37,6 +37,9 @@ impl StateMachine<'_> {
         // proposal for more robust parsing logic.
 
         self.painter.paint_buffered_minus_and_plus_lines();
+        // A header that is still owed to the previous file section (e.g. a mode change without
+        // any other header line) must come first, and must keep its own mode information.
+        self.handle_pending_line_with_diff_name()?;
         self.state = to_state;
         if self.should_handle() {
             self.painter.emit()?;
